@@ -256,3 +256,26 @@ pub fn project_reply(v: &Value, own_id: &Option<Value>) -> Value {
 		json!({"n": 1, "kind": "result", "id": idk, "result": v["result"]})
 	}
 }
+
+/// Is `text` something a JSON-RPC 2.0 server may put on the wire: a response object, a non-empty array of response objects,
+/// or a notification (`method` + optional `params`, no `id`)?  Returns what is wrong with it.
+pub fn emitted_problem(text: &str) -> Option<String> {
+	let v: Value = match serde_json::from_str(text) {
+		Ok(v) => v,
+		Err(_) => return Some("not-json".into()),
+	};
+	match &v {
+		Value::Array(a) if a.is_empty() => Some("empty-array".into()),
+		Value::Array(a) => a.iter().find_map(|e| well_formed_response(&e.to_string()).err().map(|w| format!("array-element:{}", w.split(':').next().unwrap_or("")))),
+		Value::Object(o) if o.contains_key("method") => {
+			if v["jsonrpc"] != json!("2.0") || !v["method"].is_string() || o.contains_key("id") || o.keys().any(|k| !["jsonrpc", "method", "params"].contains(&k.as_str())) {
+				Some("notification-malformed".into())
+			} else {
+				None
+			}
+		}
+		Value::Object(_) => well_formed_response(text).err().map(|w| format!("response:{}", w.split(':').next().unwrap_or(""))),
+		Value::Null => Some("bare-null".into()),
+		_ => Some("bare-scalar".into()),
+	}
+}
